@@ -4,11 +4,23 @@
 //! case line: `dyn <capacity> <blocked-limit> <op> ...`
 //!   enc:<sid>:<n>=<v>,...   encode a field section on stream <sid> (hex names/values, `-` = empty)
 //!   denc:<k>                hand the next k encoder-stream instructions to the decoder (one call)
+//!   denc:<k>@<j>.<m>,...    the same bytes in a `Buf` of SEVERAL chunks (`Buf::chunk()` returns only the piece up to the
+//!                           next cut; `Decoder::parse_instruction` reads `read.chunk()` only): one cut per `<j>.<m>`,
+//!                           `j` = 0-based index of an instruction of THIS delivery, `m = 0` the boundary in front of it,
+//!                           `m >= 1` inside it at byte offset `1 + (m-1) mod (len-1)` (an instruction of one byte cannot be
+//!                           cut: boundary in front of it).  `on_encoder_recv` is called TWICE on the same `Buf` (the second
+//!                           call must not make progress).  An instruction that crosses a chunk boundary is not parsed and
+//!                           nothing behind it either (D-20f): status `X:stall`, `n` = instructions processed,
+//!                           `left=i<instructions handed over and not processed>`; they stay at the head of the encoder
+//!                           stream and are handed over again by the next `denc`.
 //!   dblk:<sid>              decode the oldest undecoded header block of stream <sid>; acknowledge it
 //!                           (`ack_header`) when it had dynamic references (`Decoded::dyn_ref`)
 //!   dack:<k>                hand the next k decoder-stream instructions to the encoder (one call)
 //!   cap:<c>                 `set_dynamic_table_size` on the encoder's table (instruction emitted)
 //!   cancel:<sid>            decoder abandons stream <sid> (`stream_canceled`)
+//! state marks (third token): `#D-20c`, `#D-20d` (rendered `~20c`, `~20d` by the projection) and `~blk<n>`: n streams
+//! have an unacknowledged section (not released by the encoder) whose Required Insert Count is larger than the encoder's
+//! `largest_known_received`, and n exceeds the blocked-stream limit (RFC 9204 2.1.2; observation O-20e).
 //! output: per op `<status><monitor marks> <detail> <site tags>`, then `end <encoder table> <decoder table>`; the first
 //! error/panic ends the trace with `halt`.
 use crate::util::*;
@@ -171,6 +183,71 @@ struct Blk {
     bytes: Vec<u8>,
     refs: Vec<usize>,
     enc_max: usize,
+    /// Required Insert Count the encoder returned
+    req: usize,
+}
+
+/// A `Buf` of several chunks: `chunk()` is the rest of the first piece only.
+struct Pieces {
+    parts: std::collections::VecDeque<Vec<u8>>,
+    off: usize,
+}
+
+impl Pieces {
+    fn new(bytes: &[u8], cuts: &[usize]) -> Pieces {
+        let mut parts = std::collections::VecDeque::new();
+        let mut at = 0;
+        for c in cuts {
+            if *c > at && *c < bytes.len() {
+                parts.push_back(bytes[at..*c].to_vec());
+                at = *c;
+            }
+        }
+        if at < bytes.len() {
+            parts.push_back(bytes[at..].to_vec());
+        }
+        Pieces { parts, off: 0 }
+    }
+}
+
+impl Buf for Pieces {
+    fn remaining(&self) -> usize {
+        self.parts.iter().map(|p| p.len()).sum::<usize>() - self.off
+    }
+    fn chunk(&self) -> &[u8] {
+        match self.parts.front() {
+            Some(p) => &p[self.off..],
+            None => &[],
+        }
+    }
+    fn chunks_vectored<'a>(&'a self, dst: &mut [std::io::IoSlice<'a>]) -> usize {
+        // not used by the code as it is; the candidate repair of D-20f looks at all chunks through this
+        let mut n = 0;
+        for (i, p) in self.parts.iter().enumerate() {
+            if n == dst.len() {
+                break;
+            }
+            let s = if i == 0 { &p[self.off..] } else { &p[..] };
+            if !s.is_empty() {
+                dst[n] = std::io::IoSlice::new(s);
+                n += 1;
+            }
+        }
+        n
+    }
+    fn advance(&mut self, mut cnt: usize) {
+        while cnt > 0 {
+            let avail = self.parts.front().map(|p| p.len()).expect("advance past the end") - self.off;
+            if cnt >= avail {
+                cnt -= avail;
+                self.parts.pop_front();
+                self.off = 0;
+            } else {
+                self.off += cnt;
+                cnt = 0;
+            }
+        }
+    }
 }
 
 /// one request stream: decoded blocks, undecoded blocks (both oldest first), how many of them
@@ -189,7 +266,7 @@ type Streams = std::collections::BTreeMap<u64, Stream>;
 /// `!cap` size accounting / capacity, `!cnt` reference counts = sum over the tracked blocks,
 /// `!evi` an entry referenced by a section the encoder has not released has been evicted,
 /// `#D-20d` the encoder has evicted an entry the decoder has not received yet.
-fn monitor(e: &VerifTableState, d: &VerifTableState, streams: &Streams) -> (String, String) {
+fn monitor(e: &VerifTableState, d: &VerifTableState, streams: &Streams, bl: usize) -> (String, String) {
     let mut bad = String::new();
     let mut tags = String::new();
     for t in [e, d] {
@@ -223,6 +300,17 @@ fn monitor(e: &VerifTableState, d: &VerifTableState, streams: &Streams) -> (Stri
     }
     if e.dropped > d.inserted {
         tags.push_str("#D-20d");
+    }
+    // RFC 9204 2.1.2: streams that could become blocked = streams with an unacknowledged section whose Required Insert
+    // Count is larger than the encoder's known received count
+    let at_risk = streams
+        .values()
+        .filter(|st| {
+            st.done.iter().chain(st.todo.iter()).skip(st.npop).any(|b| b.req > e.largest_known_received)
+        })
+        .count();
+    if at_risk > bl {
+        tags.push_str(&format!("~blk{}", at_risk));
     }
     (bad, tags)
 }
@@ -275,17 +363,37 @@ fn run(w: &[&str]) -> String {
                         let (Some(ins), Some((pfx, reprs, refs))) = (push_enc(&mut enc_q, &ebuf), parse_block(&block, r)) else {
                             return "unparsable-output".into();
                         };
-                        streams.entry(sid).or_default().todo.push_back(Blk { bytes: block, refs, enc_max });
+                        streams.entry(sid).or_default().todo.push_back(Blk { bytes: block, refs, enc_max, req: r });
                         Ok(("E:ok".into(), format!("r={};i={};p={};b={}", r, join(&ins, "/"), pfx, join(&reprs, "/"))))
                     }
                 }
             }
             ["denc", k] => {
+                let (k, cutspec) = match k.split_once('@') {
+                    Some((k, c)) => (k, Some(c)),
+                    None => (*k, None),
+                };
                 let Ok(k) = k.parse::<usize>() else { return "bad-op".into() };
                 let n = k.min(enc_q.len() - enc_del);
-                let bytes: Vec<u8> = enc_q[enc_del..enc_del + n].concat();
-                enc_del += n;
-                let mut cur = Cursor::new(&bytes[..]);
+                let handed = &enc_q[enc_del..enc_del + n];
+                let bytes: Vec<u8> = handed.concat();
+                // byte offsets of the cuts
+                let mut cuts: Vec<usize> = vec![];
+                if let Some(cs) = cutspec {
+                    for c in cs.split(',').filter(|c| !c.is_empty()) {
+                        let Some((j, m)) = c.split_once('.') else { return "bad-op".into() };
+                        let (Ok(j), Ok(m)) = (j.parse::<usize>(), m.parse::<usize>()) else { return "bad-op".into() };
+                        if j >= n {
+                            continue;
+                        }
+                        let start: usize = handed[..j].iter().map(|x| x.len()).sum();
+                        let len = handed[j].len();
+                        cuts.push(if m == 0 || len < 2 { start } else { start + 1 + (m - 1) % (len - 1) });
+                    }
+                    cuts.sort();
+                    cuts.dedup();
+                }
+                let mut cur = Pieces::new(&bytes, &cuts);
                 let mut wbuf = vec![];
                 match catch_unwind(AssertUnwindSafe(|| dec.on_encoder_recv(&mut cur, &mut wbuf))) {
                     Err(_) => Err("X:panic".into()),
@@ -299,7 +407,30 @@ fn run(w: &[&str]) -> String {
                             dec_q.push((wbuf.clone(), DecKind::Incr));
                             v.to_string()
                         };
-                        Ok(("X:ok".into(), format!("n={};t={};inc={};left={}", n, total, inc, cur.remaining())))
+                        let left = cur.remaining();
+                        if left == 0 {
+                            enc_del += n;
+                            Ok(("X:ok".into(), format!("n={};t={};inc={};left=0", n, total, inc)))
+                        } else {
+                            // the decoder stopped in front of an instruction it holds completely: does a second call help?
+                            let mut w2 = vec![];
+                            let again = catch_unwind(AssertUnwindSafe(|| dec.on_encoder_recv(&mut cur, &mut w2)));
+                            let consumed = bytes.len() - left;
+                            let mut done = 0usize;
+                            let mut acc = 0usize;
+                            while done < n && acc + handed[done].len() <= consumed {
+                                acc += handed[done].len();
+                                done += 1;
+                            }
+                            if !matches!(again, Ok(Ok(_))) || cur.remaining() != left || !w2.is_empty() {
+                                Err("X:retry-differs".into())
+                            } else if acc != consumed {
+                                Err(format!("X:misaligned left={}", left))
+                            } else {
+                                enc_del += done;
+                                Ok(("X:stall".into(), format!("n={};t={};inc={};left=i{}", done, total, inc, n - done)))
+                            }
+                        }
                     }
                 }
             }
@@ -391,7 +522,7 @@ fn run(w: &[&str]) -> String {
         };
         match res {
             Ok((status, detail)) => {
-                let (m, t) = monitor(&enc.verif_table().verif_state(), &dec.verif_table().verif_state(), &streams);
+                let (m, t) = monitor(&enc.verif_table().verif_state(), &dec.verif_table().verif_state(), &streams, bl);
                 let tags = format!("{}{}", optag, t);
                 out.push(format!("{}{} {} {}", status, m, detail, if tags.is_empty() { "-" } else { &tags }));
             }
